@@ -11,6 +11,7 @@ import time
 from hypothesis import strategies as st
 
 from ..core import Facet, Violation, HarnessError, require, canon, setup_path, VERIF
+from .. import core as _core
 
 setup_path()
 _STUBS = os.path.join(VERIF, "pbt", "stubs")
@@ -113,6 +114,8 @@ class GatedDest(object):
             self.cond.notify_all()
 
     def wait_received(self, n, timeout=5.0):
+        if _core.FAILING:
+            timeout = min(timeout, 0.5)
         end = time.time() + timeout
         with self.cond:
             while len(self.received) < n:
@@ -194,7 +197,7 @@ def check(case):
                     break
                 if released >= n_msgs:
                     break
-            fired = d.wait(5.0)
+            fired = d.wait(0.7 if _core.FAILING else 5.0)
             got = [m for m, _ in dest.received[base:]]
             require(
                 got == offered,
